@@ -174,6 +174,29 @@ def Ctx.rawAccum (c : Ctx) (ts : List Rat) (rs : List Reward) : Nat → Rat :=
   let vals := scatterBack ts (evalAccum c.gens (rs.map c.rewardVec) c.alpha (c.news ts))
   fun i => vals.getD i 0
 
+/-- all reward tuples `accumulateModel` can ask `raw` for: orderings of sub-tuples -/
+def rawKeys (rs : List Reward) : List (List Reward) :=
+  let k := rs.length
+  dedupList ((List.range (k + 1)).flatMap fun i =>
+    (combinations (List.range k) i).flatMap fun idx => perms (idx.map fun j => rs.getD j default))
+
+/-- `rawAccum` tabulated once per distinct reward tuple (the model of `functools.cache` on `_accumulate`) -/
+def Ctx.rawTable (c : Ctx) (ts : List Rat) (rs : List Reward) : List Reward → Nat → Rat :=
+  let table := (rawKeys rs).filter (fun key => !key.isEmpty) |>.map fun key => (key, c.rawAccum ts key)
+  fun key => match table.lookup key with
+    | some f => f
+    | none => c.rawAccum ts key
+
+def Ctx.momentModel (c : Ctx) (center permute : Bool) (rs : List Reward) (ts : List Rat) : List Rat :=
+  let f : Nat → Rat := accumulateModel (c.rawTable ts rs) center permute rs
+  (List.range ts.length).map f
+
+def sfsReward (folded : Bool) (base : Reward) (i : Nat) : Reward :=
+  Reward.combined [base, if folded then .foldedSFS i else .unfoldedSFS i]
+
+def sfsIndices (folded : Bool) (n : Nat) : List Nat :=
+  if folded then (List.range (n / 2)).map (· + 1) else (List.range (n - 1)).map (· + 1)
+
 def Ctx.cdf (c : Ctx) (ts : List Rat) : List Rat :=
   scatterBack ts (evalCdf c.gens (c.rewardVec .treeHeight) c.alpha (c.news ts))
 
@@ -282,10 +305,30 @@ def handle (c : Ctx) (line : String) : Ctx × String :=
       | some (rs, [ts]) =>
         match parseList? parseRat? ts with
         | some ts =>
-          let f : Nat → Rat := accumulateModel (c.rawAccum ts) (center == "1") (permute == "1") rs
-          (c, " ".intercalate ((List.range ts.length).map fun i => showRat (f i)))
+          (c, " ".intercalate ((c.momentModel (center == "1") (permute == "1") rs ts).map showRat))
         | none => bad
       | _ => bad
+    | none => bad
+  | ["sfsmoment", kind, k, center, t] =>
+    -- SFSDistribution.moment(k, center) at end time t: padded vector of per-bin moments
+    match k.toNat?, parseRat? t with
+    | some k, some t =>
+      let folded := kind == "f"
+      let ms := (sfsIndices folded c.nTot).map fun i =>
+        (c.momentModel (center == "1") true (List.replicate k (sfsReward folded .unit i)) [t]).getD 0 0
+      (c, " ".intercalate ((padSFS c.nTot ms).map showRat))
+    | _, _ => bad
+  | ["sfscov", kind, t] =>
+    match parseRat? t with
+    | some t =>
+      let folded := kind == "f"
+      let idx := sfsIndices folded c.nTot
+      let mean := padSFS c.nTot (idx.map fun i => (c.momentModel false true [sfsReward folded .unit i] [t]).getD 0 0)
+      let x := fun i j => (c.momentModel false false [sfsReward folded .unit i, sfsReward folded .unit j] [t]).getD 0 0
+      -- tabulate x once
+      let tab := idx.flatMap fun i => idx.map fun j => ((i, j), x i j)
+      let cov := covSFS c.nTot idx (fun i j => (tab.lookup (i, j)).getD 0) mean
+      (c, " ; ".intercalate (cov.map fun row => " ".intercalate (row.map showRat)))
     | none => bad
   | ["cdf", ts] =>
     match parseList? parseRat? ts with
